@@ -283,9 +283,8 @@ doc_h!(slice_u2_b1_cap0, U, 2, B, 1, 99, None, 0, true, 18);
 #[kani::stub(<core::io::CustomOwner as core::ops::Drop>::drop, stubs::noop_custom_owner_drop)]
 #[kani::stub(std::hash::RandomState::new, stubs::fixed_random_state)]
 fn cut_b14_then_one_byte() {
-    // first and last payload byte symbolic, the 12 in between concrete (the cost is in the buffer boundary, not the payload)
+    // only the last payload byte is symbolic (the cost is in the buffer boundary, not in the payload)
     let mut p = [0x55u8; 14];
-    p[0] = kani::any();
     p[13] = kani::any();
     let mut doc = [0u8; 17];
     doc[0] = flat::B as u8;
